@@ -69,6 +69,20 @@ def settlement_scenario(sid, mtype, statuses, winners, prices, size, ewd=None, l
     return scn
 
 
+def line_replace_scenario(sid, side, line0, line1, result):
+    """line market: an order rests on one line, is re-priced to another line (replace) where it is matched, then the
+    market settles: the replacement is an order of the line market like the one it replaces"""
+    avail = [[149.5, 10.0]], [[152.5, 10.0]]
+    rstat = {"11": ["ACTIVE", None, None]}
+    ups = [{"pt": 1000 * k, "version": 1, "rstat": rstat, "books": {"11": _bk(avail[0], avail[1], [])}} for k in range(6)]
+    ups.append({"pt": 7000, "status": "CLOSED", "version": 2, "rstat": {"11": ["WINNER", None, None]}, "books": {}})
+    m = {"id": "1.100000001", "event_id": "30000001", "market_type": "COMBINED_TOTAL", "winners": 1, "bsp": False, "persistence": True, "runners": [11], "updates": ups,
+         "ladder": "LINE_RANGE", "betting_type": "LINE", "line": [300.5, 0.5, 0.5]}
+    script = {"1.100000001|0|book": [{"op": "place", "o": "l1", "t": "tl1", "sel": 11, "side": side, "price": line0, "size": 2.0, "ladder": "LINE_RANGE", "line": [0.5, 300.5, 0.5]}],
+              "1.100000001|2000|book": [{"op": "replace", "o": "l1", "price": line1}]}
+    return {"id": sid, "cfg": {}, "markets": [m], "strategies": [{"name": "A", "max_live_trade_count": 100, "script": script}], "line_results": {"1.100000001": result}}
+
+
 def family_settlement(tier, seed):
     out = []
     k = 0
@@ -91,6 +105,10 @@ def family_settlement(tier, seed):
         for line in ([150.5, 151.0] if tier == "thorough" else [150.5, 151.0]):
             k += 1
             out.append(settlement_scenario("x_line_%d" % k, "COMBINED_TOTAL", ["WINNER"], 1, [line], 2.0, line=[0.5, 300.5, 0.5], line_result=result))
+    for side, l0, l1 in (("LAY", 150.5, 152.5), ("BACK", 151.5, 149.5)):
+        for result in (148.0, 151.0, 153.0):
+            k += 1
+            out.append(line_replace_scenario("x_line_rep_%d" % k, side, l0, l1, result))
     return out
 
 
